@@ -487,6 +487,15 @@ fn run(case: &SeqCase, env: &mut Env, pr: &Progress) -> Result<CaseReport, Failu
         if m.slots[s as usize][&(t, n)].gen > 1 {
           rep.class("E1:re_registration");
         }
+        if n >= PLAIN_NAMES {
+          rep.class("E1:confusable_name_registered");
+          rep.class(format!("E1:name:{}", name_label(n)));
+        }
+        if TWINS.iter().any(|&(a, b)| (a == n && m.slots[s as usize].contains_key(&(t, b))) || (b == n && m.slots[s as usize].contains_key(&(t, a)))) {
+          // both names of a confusable pair are now registered under one type in one container
+          rep.class("E1:confusable_pair_both_registered");
+          rep.class(format!("E1:confusable_pair:{c}"));
+        }
         if let Err(p) = catch_unwind(AssertUnwindSafe(|| env.register(s, t, n, f, reg, *imp, &deps))) {
           return Err(Failure::new(P, format!("E1/{c}/register/panic/{}", site(&panic_msg(&p))), format!("step {step}: registration panicked: {}", panic_msg(&p))));
         }
@@ -525,13 +534,23 @@ fn run(case: &SeqCase, env: &mut Env, pr: &Progress) -> Result<CaseReport, Failu
         reset_depth();
         let got = catch_unwind(AssertUnwindSafe(|| env.get(s, t, n, via)));
         pr.at_cycle.store(false, Ordering::SeqCst);
-        let kind_s = before.as_ref().map(|r| format!("{:?}", r.kind).to_lowercase()).unwrap_or_else(|| "unregistered".into());
-        let what = format!("step {step}{}: get {c} ty{t} name{:?} via {via:?}", if in_sweep { " (sweep)" } else { "" }, name_of(n));
+        let kind_s: &'static str = match before.as_ref().map(|r| r.kind) {
+          None => "unregistered",
+          Some(Kind::Instance) => "instance",
+          Some(Kind::Singleton) => "singleton",
+          Some(Kind::Transient) => "transient",
+        };
+        // (a macro, not a String: the sweep makes this path hot and the text is only needed on failure)
+        macro_rules! what {
+          () => {
+            format!("step {step}{}: get {c} ty{t} name[{}]={:?} via {via:?}", if in_sweep { " (sweep)" } else { "" }, name_label(n), name_of(n).map(|s| if s.len() > 40 { &s[s.len() - 8..] } else { s }))
+          };
+        }
         match (&exp, got) {
           (_, Err(p)) if panic_msg(&p).contains(DEPTH_PANIC) => {
             // "reported by a panic instead of a hang or stack overflow": more than MAX_DEPTH
             // nested factories = a factory running inside itself without end
-            return Err(Failure::new(P, format!("E1/{c}/cycle/unbounded_recursion_instead_of_panic"), format!("{what}: the container kept re-entering factories of services already being built (> {MAX_DEPTH} nested); stopped by the harness before the stack overflowed")));
+            return Err(Failure::new(P, format!("E1/{c}/cycle/unbounded_recursion_instead_of_panic"), format!("{}: the container kept re-entering factories of services already being built (> {MAX_DEPTH} nested); stopped by the harness before the stack overflowed", what!())));
           }
           (Err(Cycle), Err(_)) => {
             // reported by a panic — which panic text is not part of the property
@@ -540,7 +559,7 @@ fn run(case: &SeqCase, env: &mut Env, pr: &Progress) -> Result<CaseReport, Failu
           }
           (Err(Cycle), Ok(g)) => {
             // "a dependency cycle is reported by a panic"
-            return Err(Failure::new(P, format!("E1/{c}/cycle/returned_instead_of_panic"), format!("{what}: the service transitively depends on itself but the resolution returned {:?}", g.map(|g| g.inst))));
+            return Err(Failure::new(P, format!("E1/{c}/cycle/returned_instead_of_panic"), format!("{}: the service transitively depends on itself but the resolution returned {:?}", what!(), g.map(|g| g.inst))));
           }
           (Ok(_), Err(p)) => {
             let msg = panic_msg(&p);
@@ -555,20 +574,20 @@ fn run(case: &SeqCase, env: &mut Env, pr: &Progress) -> Result<CaseReport, Failu
             } else {
               format!("E1/{c}/{kind_s}/unexpected_panic/{}", site(&msg))
             };
-            return Err(Failure::new(P, sig, format!("{what}: no dependency cycle, model expects {:?}, but the resolution panicked: {msg}", exp.as_ref().ok())));
+            return Err(Failure::new(P, sig, format!("{}: no dependency cycle, model expects {:?}, but the resolution panicked: {msg}", what!(), exp.as_ref().ok())));
           }
           (Ok(None), Ok(Some(g))) => {
             // "an unregistered key resolves to None" / "differently typed or named
             // registrations never alias"
             let from = m.reg_key.get(&g.inst.reg);
-            return Err(Failure::new(P, format!("E1/{c}/unregistered_key_resolved"), format!("{what}: key was never registered in this container but resolved to {:?} (registration of {:?})", g.inst, from)));
+            return Err(Failure::new(P, format!("E1/{c}/unregistered_key_resolved"), format!("{}: key was never registered in this container but resolved to {:?} (registration of {:?})", what!(), g.inst, from)));
           }
           (Ok(None), Ok(None)) => {
             rep.class("E1:unregistered_none");
           }
           (Ok(Some(_)), Ok(None)) => {
             // "the latest registration of a key is the one resolved afterwards"
-            return Err(Failure::new(P, format!("E1/{c}/{kind_s}/registered_key_resolved_none"), format!("{what}: key is registered but resolved to None")));
+            return Err(Failure::new(P, format!("E1/{c}/{kind_s}/registered_key_resolved_none"), format!("{}: key is registered but resolved to None", what!())));
           }
           (Ok(Some(serial)), Ok(Some(g))) => {
             let r = before.as_ref().unwrap();
@@ -581,7 +600,7 @@ fn run(case: &SeqCase, env: &mut Env, pr: &Progress) -> Result<CaseReport, Failu
                 // "differently typed or named registrations never alias"
                 format!("E1/{c}/{kind_s}/aliased_other_key")
               };
-              return Err(Failure::new(P, sig, format!("{what}: expected an instance of registration #{} but got {:?} built by registration #{} of key {:?}", r.reg, g.inst, g.inst.reg, from)));
+              return Err(Failure::new(P, sig, format!("{}: expected an instance of registration #{} but got {:?} built by registration #{} of key {:?}", what!(), r.reg, g.inst, g.inst.reg, from)));
             }
             if g.inst.serial != *serial {
               let sig = match r.kind {
@@ -590,10 +609,10 @@ fn run(case: &SeqCase, env: &mut Env, pr: &Progress) -> Result<CaseReport, Failu
                 // "a transient registration yields a fresh instance on every resolution"
                 Kind::Transient => format!("E1/{c}/transient/not_fresh"),
               };
-              return Err(Failure::new(P, sig, format!("{what}: expected instance serial {serial}, got {:?}", g.inst)));
+              return Err(Failure::new(P, sig, format!("{}: expected instance serial {serial}, got {:?}", what!(), g.inst)));
             }
             if g.inst.imp != r.imp || g.behind.map(|b| b != r.imp).unwrap_or(false) {
-              return Err(Failure::new(P, format!("E1/{c}/{kind_s}/wrong_impl_type"), format!("{what}: registered impl {} but got {:?} behind={:?}", r.imp, g.inst, g.behind)));
+              return Err(Failure::new(P, format!("E1/{c}/{kind_s}/wrong_impl_type"), format!("{}: registered impl {} but got {:?} behind={:?}", what!(), r.imp, g.inst, g.behind)));
             }
             // pointer identity: every Arc/Rc ever returned to this loop is still alive
             match env.addr_of.get(serial) {
@@ -601,13 +620,13 @@ fn run(case: &SeqCase, env: &mut Env, pr: &Progress) -> Result<CaseReport, Failu
                 rep.class(format!("E1:{kind_s}_resolved_again_ptr_eq"));
                 if a != g.addr {
                   // "gives every caller the same instance"
-                  return Err(Failure::new(P, format!("E1/{c}/{kind_s}/same_payload_different_allocation"), format!("{what}: instance serial {serial} was at {a:#x}, now at {:#x}", g.addr)));
+                  return Err(Failure::new(P, format!("E1/{c}/{kind_s}/same_payload_different_allocation"), format!("{}: instance serial {serial} was at {a:#x}, now at {:#x}", what!(), g.addr)));
                 }
               }
               None => {
                 if !env.addrs.insert(g.addr) {
                   // "yields a fresh instance" / "never alias"
-                  return Err(Failure::new(P, format!("E1/{c}/{kind_s}/new_instance_shares_allocation"), format!("{what}: a new instance (serial {serial}) lives at the address of another live instance {:#x}", g.addr)));
+                  return Err(Failure::new(P, format!("E1/{c}/{kind_s}/new_instance_shares_allocation"), format!("{}: a new instance (serial {serial}) lives at the address of another live instance {:#x}", what!(), g.addr)));
                 }
                 env.addr_of.insert(*serial, g.addr);
               }
@@ -690,8 +709,10 @@ fn slot_s() -> impl Strategy<Value = u8> {
 fn ty_s() -> impl Strategy<Value = u8> {
   prop_oneof![5 => Just(0u8), 4 => Just(1u8), 3 => Just(2u8), 1 => Just(3u8), 1 => Just(4u8), 1 => Just(5u8), 3 => Just(6u8), 2 => Just(7u8)]
 }
+/// Skewed so that keys keep colliding (re-registration); about 40 % of the picks are one of the
+/// 13 confusable names (universe.rs `name_of`), each of which has a partner it must not alias.
 fn name_s() -> impl Strategy<Value = u8> {
-  prop_oneof![3 => Just(0u8), 2 => Just(1u8), 1 => Just(2u8)]
+  prop_oneof![7 => Just(0u8), 5 => Just(1u8), 2 => Just(2u8), 3 => Just(3u8), 6 => PLAIN_NAMES + 1..NNAMES]
 }
 fn form_s() -> impl Strategy<Value = Form> {
   prop_oneof![2 => Just(Form::Instance), 4 => Just(Form::Singleton), 4 => Just(Form::Transient), 1 => Just(Form::SingletonArc)]
@@ -779,7 +800,20 @@ fn chunk_s() -> impl Strategy<Value = Vec<Op>> {
       Op::Get { slot: s1, ty, name, via },
     ]
   });
-  prop_oneof![10 => reg, 6 => get, 12 => known, 6 => dag, 1 => ring, 2 => delegate]
+  // both members of a confusable pair of names under the same type in the same container, with
+  // independent registration forms: "differently ... named registrations never alias"
+  let twins = (slot_s(), ty_s(), 0usize..TWINS.len(), any::<bool>(), form_s(), form_s(), via_s()).prop_map(|(slot, ty, pair, swap, f1, f2, via)| {
+    let (a, b) = TWINS[pair];
+    let (n1, n2) = if swap { (b, a) } else { (a, b) };
+    vec![
+      Op::Reg { slot, ty, name: n1, form: f1, imp: 0, deps: vec![] },
+      Op::Reg { slot, ty, name: n2, form: f2, imp: 1, deps: vec![] },
+      Op::Get { slot, ty, name: n1, via },
+      Op::Get { slot, ty, name: n2, via },
+      Op::Get { slot, ty, name: n1, via: Via::Method },
+    ]
+  });
+  prop_oneof![10 => reg, 6 => get, 12 => known, 6 => dag, 1 => ring, 2 => delegate, 3 => twins]
 }
 
 pub fn strategy(max_chunks: usize) -> impl Strategy<Value = SeqCase> {
